@@ -306,6 +306,133 @@ func lsWaitSelfTest() error {
 	return nil
 }
 
+// the "awaited goroutines are always started" tables: a component whose Stop waits for a done channel its worker closes
+const lsSelfStart = `package p
+
+import "sync"
+
+type Comp struct {
+	mu      sync.Mutex
+	done    chan struct{}
+	ready   chan struct{}
+	enabled bool
+	stopped bool
+}
+
+func NewComp(on bool) (*Comp, error) {
+	if !on {
+		return nil, nil
+	}
+	c := &Comp{done: make(chan struct{}), ready: make(chan struct{}, 1), enabled: on}
+	go c.setup()
+	return c, nil
+}
+
+func (c *Comp) setup() {
+	if c.enabled {
+		go c.worker()
+	}
+	select {
+	case <-c.ready:
+	default:
+		return
+	}
+}
+
+func (c *Comp) worker() {
+	defer close(c.done)
+	c.mu.Lock()
+	c.mu.Unlock()
+}
+
+func (c *Comp) Stop() {
+	c.mu.Lock()
+	c.stopped = true
+	c.mu.Unlock()
+	if c.enabled {
+		<-c.done
+	}
+}
+`
+
+// the decision Model/C18_Table.v started_okb takes on the emitted tables (mirrored here for the self-test only)
+func lsStartedOK(o *lsOut) (bool, string) {
+	sub := func(xs, ys []string) bool {
+		for _, x := range xs {
+			f := false
+			for _, y := range ys {
+				f = f || x == y
+			}
+			if !f {
+				return false
+			}
+		}
+		return true
+	}
+	var started func(fuel int, u string, conds []string) bool
+	started = func(fuel int, u string, conds []string) bool {
+		if fuel == 0 {
+			return false
+		}
+		for _, l := range o.launches {
+			if l.unit == u && sub(l.conds, conds) && (l.ctor || (len(l.exits) == 0 && started(fuel-1, l.by, conds))) {
+				return true
+			}
+		}
+		return false
+	}
+	for _, w := range o.waits {
+		if !w.direct || !strings.HasPrefix(w.group, "ch:") {
+			continue
+		}
+		ok := false
+		for _, m := range o.members {
+			if m.group == w.group && m.sure && started(6, m.label, w.conds) {
+				ok = true
+			}
+		}
+		if !ok {
+			return false, w.fn + " " + w.group
+		}
+	}
+	return true, ""
+}
+
+func lsStartSelfTest() error {
+	run := func(src string) (*lsOut, error) {
+		return lsAnalyze("m", []lsTarget{{"", "Comp", []string{"stopped"}}}, map[string]map[string]string{"": {"p.go": src}})
+	}
+	base, err := run(lsSelfStart)
+	if err != nil {
+		return err
+	}
+	if ok, why := lsStartedOK(base); !ok {
+		return fmt.Errorf("start base: flagged although the worker is started on every path: %s (launches %+v, members %+v)", why, base.launches, base.members)
+	}
+	if len(base.leaks) != 0 {
+		return fmt.Errorf("start base: leaks: %+v", base.leaks)
+	}
+	muts := []struct{ name, old, new string }{
+		{"worker launched after an early return of its launcher", "\tif c.enabled {\n\t\tgo c.worker()\n\t}\n\tselect {\n\tcase <-c.ready:\n\tdefault:\n\t\treturn\n\t}\n", "\tselect {\n\tcase <-c.ready:\n\tdefault:\n\t\treturn\n\t}\n\tif c.enabled {\n\t\tgo c.worker()\n\t}\n"},
+		{"worker launched under a condition the wait is not under", "\tif c.enabled {\n\t\t<-c.done\n\t}\n", "\t<-c.done\n"},
+		{"launcher itself never started", "\tgo c.setup()\n", "\t_ = c.setup\n"},
+		{"close not deferred and behind a return", "\tdefer close(c.done)\n\tc.mu.Lock()\n\tc.mu.Unlock()\n", "\tc.mu.Lock()\n\tif c.stopped {\n\t\tc.mu.Unlock()\n\t\treturn\n\t}\n\tc.mu.Unlock()\n\tclose(c.done)\n"},
+	}
+	for _, m := range muts {
+		if strings.Count(lsSelfStart, m.old) != 1 {
+			return fmt.Errorf("start mutant %q: anchor not unique", m.name)
+		}
+		o, err := run(strings.Replace(lsSelfStart, m.old, m.new, 1))
+		if err != nil {
+			return fmt.Errorf("start mutant %q: %v", m.name, err)
+		}
+		if ok, _ := lsStartedOK(o); ok {
+			return fmt.Errorf("start mutant %q: not flagged (launches %+v, members %+v)", m.name, o.launches, o.members)
+		}
+	}
+	return nil
+}
+
 type lsMutant struct {
 	name     string
 	old, new string
@@ -364,6 +491,9 @@ func lsHasNest(o *lsOut, held, acq string) bool {
 
 func lsSelfTest() error {
 	if err := lsWaitSelfTest(); err != nil {
+		return err
+	}
+	if err := lsStartSelfTest(); err != nil {
 		return err
 	}
 	base, err := lsRunSnippet(lsSelfBase)
